@@ -11,7 +11,9 @@ CLAIMS = {
  "C01": ("model_checking", "MC_Menu: Inv_C01 (outcome is a document or 1..11 typed, located errors) on every document over the base menu; every "
          "enumerated behaviour replayed through the real parser/compiler in both error modes must produce exactly the predicted outcome class (any "
          "foreign exception is the violation); corpus + generated + noisy traces validated against Trace_Pipeline with the outcome predicates "
-         "evaluated on the implementation's result.", "TLC model checking + spec->code replay + code->spec trace validation"),
+         "evaluated on the implementation's result; Scanner.tla / MC_Scanner: every small argument against a small file system replayed on the real TokenScanner (the recorded "
+         "path finding as the named difference of StreamImplemented and StreamDocumented); the source handed over in every way the API allows; tag lines incl. the recorded "
+         "tag finding class and the stream (also with stop_at_first_error) never raise a foreign exception.", "TLC model checking + spec->code replay + code->spec trace validation"),
  "C03": ("model_checking", "Props.tla P_C03_* (once / order / text / description / within) model-checked on the specification for every "
          "document over the base menu, evaluated on the implementation's recorded AST for every trace, and the whole AST compared with the "
          "specification's AST (menu replay and trace validation).", "TLC model checking + spec->code replay + code->spec trace validation"),
@@ -38,7 +40,8 @@ CLAIMS = {
          "token listing; header spellings from the pattern; foreign keywords; shipped table byte-identical to the master table.",
          "TLC model checking (complete enumeration) + code->spec trace validation"),
  "C06": ("model_checking", "MC_Grow enumerates every ACCEPTED document over a structural menu up to N lines and after deep prefixes; P_C06 (declarative Units(doc) vs "
-         "operational compiler) checked on the spec; every document replayed through the real parser+compiler and compared pickle by pickle; corpus/generated traces.",
+         "operational compiler) checked on the spec; every document replayed through the real parser+compiler and compared pickle by pickle; corpus/generated traces (also with the id counter at 95 when the document starts); Trace_Compile.tla: the real compiler "
+         "ALONE on parsed, JSON/pickle round-tripped and re-ordered ASTs against the operational compiler and the declarative predicates; one compiler / parser re-used 2 500 times.",
          "TLC model checking + spec->code replay + trace validation"),
  "C07": ("model_checking", "As C06 with P_C07 (feature background, rule background, own steps; none for step-less scenarios; arguments carried); deep prefix with two rules "
          "each having a background exposes leakage between rules.", "TLC model checking + spec->code replay + trace validation"),
@@ -46,12 +49,15 @@ CLAIMS = {
          "all four levels.", "TLC model checking + spec->code replay + trace validation"),
  "C09": ("model_checking", "MC_Interpolate: operational substitution = declarative one, unchanged-without-placeholder, literal insertion, sequential columns over all templates "
          "<= L x adversarial header/value pairs; every triple replayed through Compiler.compile on AST dictionaries (name, step text, cell, doc string content, media type; "
-         "background untouched), a sample as real text through the parser.", "TLC model checking + spec->code replay + trace validation"),
+         "background untouched), a sample as real text through the parser; three alphabets (regex metacharacters; line feed and combining marks; U+001F / NUL); "
+         "Trace_Compile on parsed, round-tripped and re-ordered ASTs.", "TLC model checking + spec->code replay + trace validation"),
  "C10": ("model_checking", "MC_Types: all keyword-type sequences (background 0..2 x scenario 0..4/5 steps), plain and outline: definite, from keyword, inherited across the "
-         "boundary, plain = outline; replayed on AST dictionaries and text; every listed step keyword of every dialect for the keyword->type map.",
+         "boundary, plain = outline; replayed on AST dictionaries and text; every listed step keyword of every dialect for the keyword->type map; matchers re-used after unknown dialects, several matchers alive at once, the Markdown "
+         "matcher used first; Trace_Compile on round-tripped ASTs (strings no longer interned).",
          "TLC model checking (complete up to the length bound) + replay + trace validation"),
  "C11": ("model_checking", "P_C11_Canonical (ids = nid0.. in canonical post-order incl. pickles) and P_C11_Refs on every accepted document over the structural menu; MC_Stream: "
-         "uniqueness across documents of one stream incl. rejected ones, monotone counter (action property), density; recorded streams and traces.",
+         "uniqueness across documents of one stream incl. rejected ones, monotone counter (action property), density; recorded streams (one of 300+ sources) and traces; "
+         "MC_Cli Inv_OneStream on real command lines; id generators of the user's own (subclass, duck-typed, re-bound, non-numeral ids) as the one origin of all ids.",
          "TLC model checking + spec->code replay + trace validation"),
  "C12": ("model_checking", "MC_Cells: the splitter as a character-level machine = recursive operational definition = declarative definition, round trip, read-back, on every "
          "row over the 5 character classes up to the length bound (two instantiations of the classes); every row replayed on GherkinLine.table_cells and inside data / "
@@ -61,17 +67,19 @@ CLAIMS = {
          "TLC model checking + spec->code replay + trace validation"),
  "C17": ("model_checking", "Stream.tla/Messages.tla: MC_Stream checks order/options/uri/rejected-only-errors on every sequence of pool sources x 8 option sets and replays "
          "each through GherkinEvents.enum; recorded streams (corpus, generated, noisy) validated by Trace_Stream with every raw envelope reduced to a shape that must fit the "
-         "transcribed Cucumber Messages schema (itself validated on the corpus reference ndjson); CLI JSON round trip.",
+         "transcribed Cucumber Messages schema (itself validated on the corpus reference ndjson); the print options as STATE of the stream (SetOptions between sources); Cli.tla / MC_Cli: every command line over the three flags and four files run as a real "
+         "process; CLI in a C-locale process; CLI JSON round trip.",
          "TLC model checking + spec->code replay + trace validation of recorded streams"),
 
  "C15": ("model_checking", "Sessions.tla: instances with persistent matcher state, Begin/Token/End actions; TLC enumerates every history (<= 2/3 documents from a pool of 12 "
          "state-perturbing documents, two default dialects, shared id generator) and every interleaving of two (thorough: three) concurrent parses at loop-iteration "
          "granularity, checking Inv_Fresh / Inv_Solo / Inv_Independent; each history replayed on ONE real Parser/TokenMatcher/Compiler (state after reset observed), each "
-         "schedule enforced on real parsers in gated threads; determinism and compile purity on real documents.",
+         "schedule enforced on real parsers in gated threads; determinism (hash seeds, C locale, other working directory, -O) and compile purity on real documents; 2 500 uses of one object set; several matchers "
+         "alive at once; the module-level dialect table intact.",
          "TLC model checking of histories and schedules + replay on re-used / concurrently running real objects"),
  "C16": ("model_checking", "Layout.tla: ApplyT / Admissible / Adjust for six transformations; MC_Layout checks Result(T(doc)) = Adjust(Result(doc)) for every document <= N over a "
          "menu x every admissible application and replays each; Trace_Layout evaluates the same relation with TLC on the implementation's recorded results for corpus, "
-         "generated and noisy documents (the harness's text transformation is itself checked against ApplyT); file versus string through real files.",
+         "generated and noisy documents (the harness's text transformation is itself checked against ApplyT); file versus string through real files (also in a C-locale process), and exactly: Scanner.tla Inv_FileIsCrLfString replayed on the real TokenScanner.",
          "TLC model checking + spec->code replay + relation checked by TLC on recorded implementation results"),
  "C19": ("model_checking", "Markdown.tla: header / bullet / table-row / back-tick tag matching; complete enumeration 80 dialects x listed keywords x depth 0..7 / bullet x "
          "separator x indentation (143k lines) and rows/tag lines over small alphabets; clause-by-clause invariants on the spec; every case replayed on the real "
